@@ -108,7 +108,9 @@ mutual
       simp only [remapElementValue] at h
       split at h
       · simp at h
-      · simp at h; subst h; rfl
+      · split at h
+        · simp at h
+        · simp at h; subst h; rfl
     | .cls d, w, h => by
       simp only [remapElementValue] at h
       split at h
@@ -289,7 +291,7 @@ theorem typeAnnotations_shape (as bs : List TypeAnnotation) (h : omapM (remapTyp
     bs.map eraseTypeAnnotation = as.map eraseTypeAnnotation :=
   omapM_erase _ _ as bs h (fun x _ y hy => typeAnnotation_shape r x y hy)
 
-theorem code_shape (c d : Code) (h : remapCode r c = some d) : eraseCode d = eraseCode (stripCode c) := by
+theorem code_shape (c d : Code) (h : remapCode r c = some d) : eraseCode d = eraseCode c := by
   simp only [remapCode] at h
   osplit h with insns hinsns
   osplit h with excs hexcs
@@ -297,7 +299,7 @@ theorem code_shape (c d : Code) (h : remapCode r c = some d) : eraseCode d = era
   osplit h with rvta hrvta
   osplit h with rita hrita
   simp at h; subst h
-  simp [eraseCode, stripCode, typeAnnotations_shape r _ _ hrvta, typeAnnotations_shape r _ _ hrita,
+  simp [eraseCode, typeAnnotations_shape r _ _ hrvta, typeAnnotations_shape r _ _ hrita,
     omapM_erase _ eraseInsnEntry _ _ hinsns (fun x _ y hy => insnEntry_shape r x y hy),
     omapM_erase _ eraseExc _ _ hexcs (fun x _ y hy => exc_shape r x y hy),
     ooptM_erase _ (List.map eraseLv) _ _ hlvs
@@ -305,7 +307,7 @@ theorem code_shape (c d : Code) (h : remapCode r c = some d) : eraseCode d = era
 
 
 theorem field_shape (o : JStr) (f g : Field) (h : remapField r o f = some g) :
-    eraseField g = eraseField (stripField f) := by
+    eraseField g = eraseField f := by
   simp only [remapField] at h
   split at h
   · simp at h
@@ -315,11 +317,11 @@ theorem field_shape (o : JStr) (f g : Field) (h : remapField r o f = some g) :
   osplit h with rvta hrvta
   osplit h with rita hrita
   simp at h; subst h
-  simp [eraseField, stripField, typeAnnotations_shape r _ _ hrvta, typeAnnotations_shape r _ _ hrita,
+  simp [eraseField, typeAnnotations_shape r _ _ hrvta, typeAnnotations_shape r _ _ hrita,
     annotations_shape r _ _ hrva, annotations_shape r _ _ hria]
 
 theorem method_shape (o : JStr) (m n : Method) (h : remapMethod r o m = some n) :
-    eraseMethod n = eraseMethod (stripMethod m) := by
+    eraseMethod n = eraseMethod m := by
   simp only [remapMethod] at h
   split at h
   · simp at h
@@ -332,7 +334,7 @@ theorem method_shape (o : JStr) (m n : Method) (h : remapMethod r o m = some n) 
   osplit h with rita hrita
   osplit h with ad had
   simp at h; subst h
-  have hc : code.map eraseCode = (m.code.map stripCode).map eraseCode := by
+  have hc : code.map eraseCode = m.code.map eraseCode := by
     cases hm : m.code with
     | none => simp [hm, ooptM] at hcode; subst hcode; rfl
     | some c =>
@@ -352,7 +354,7 @@ theorem method_shape (o : JStr) (m n : Method) (h : remapMethod r o m = some n) 
       · rename_i es' hes'
         simp at hexcs; subst hexcs
         simp [omapM_blank _ _ _ hes']
-  simp [eraseMethod, stripMethod, typeAnnotations_shape r _ _ hrvta, typeAnnotations_shape r _ _ hrita,
+  simp [eraseMethod, typeAnnotations_shape r _ _ hrvta, typeAnnotations_shape r _ _ hrita,
     annotations_shape r _ _ hrva, annotations_shape r _ _ hria, hc, he,
     ooptM_erase _ eraseElementValue _ _ had (fun a b _ hb => elementValue_shape r a b hb)]
 
@@ -362,7 +364,7 @@ theorem innerClass_shape (i j : InnerClass) (h : remapInnerClass r i = some j) :
   osplit h with inner hinner
   osplit h with outer houter
   simp at h; subst h
-  simp [eraseInnerClass, ooptM_blank _ _ _ houter]
+  simp [eraseInnerClass, ooptM_blank _ _ _ houter, Function.comp_def]
 
 theorem enclosing_shape (e f : Enclosing) (h : remapEnclosing r e = some f) :
     eraseEnclosing f = eraseEnclosing e := by
@@ -378,8 +380,38 @@ theorem enclosing_shape (e f : Enclosing) (h : remapEnclosing r e = some f) :
     osplit h with m' hm
     simp at h; subst h; rfl
 
-/-- **shape**: what `remap.rs` returns has the shape of the class without what is dropped -/
-theorem class_shape (c d : ClassFile) (h : remapClass r c = some d) : eraseClass d = eraseClass (strip c) := by
+theorem recordComponent_shape (o : JStr) (c d : RecordComponent) (h : remapRecordComponent r o c = some d) :
+    eraseRecordComponent d = eraseRecordComponent c := by
+  simp only [remapRecordComponent] at h
+  split at h
+  · simp at h
+  rename_i _ n ds hnd
+  osplit h with rva hrva
+  osplit h with ria hria
+  osplit h with rvta hrvta
+  osplit h with rita hrita
+  simp at h; subst h
+  simp [eraseRecordComponent, typeAnnotations_shape r _ _ hrvta, typeAnnotations_shape r _ _ hrita,
+    annotations_shape r _ _ hrva, annotations_shape r _ _ hria]
+
+theorem moduleProvides_shape (p q : ModuleProvides) (h : remapModuleProvides r p = some q) :
+    eraseModuleProvides q = eraseModuleProvides p := by
+  simp only [remapModuleProvides] at h
+  osplit h with n hn
+  osplit h with ws hws
+  simp at h; subst h
+  simp [eraseModuleProvides, omapM_blank _ _ _ hws]
+
+theorem module_shape (m n : Module) (h : remapModule r m = some n) : eraseModule n = eraseModule m := by
+  simp only [remapModule] at h
+  osplit h with uses huses
+  osplit h with provides hprov
+  simp at h; subst h
+  simp [eraseModule, omapM_blank _ _ _ huses,
+    omapM_erase _ eraseModuleProvides _ _ hprov (fun x _ y hy => moduleProvides_shape r x y hy)]
+
+/-- **shape**: what `remap.rs` returns has the shape of the class it was given -/
+theorem class_shape (c d : ClassFile) (h : remapClass r c = some d) : eraseClass d = eraseClass c := by
   simp only [remapClass] at h
   osplit h with name hname
   osplit h with superClass hsuper
@@ -392,18 +424,21 @@ theorem class_shape (c d : ClassFile) (h : remapClass r c = some d) : eraseClass
   osplit h with ria hria
   osplit h with rvta hrvta
   osplit h with rita hrita
+  osplit h with module hmodule
+  osplit h with mainClass hmain
   osplit h with nestHost hnh
   osplit h with nestMembers hnm
   osplit h with permitted hps
+  osplit h with records hrcs
   simp at h; subst h
-  have hf : fields.map eraseField = (c.fields.map stripField).map eraseField := by
-    rw [List.map_map]
-    exact omapM_erase2 (remapField r c.name) eraseField (eraseField ∘ stripField) c.fields fields hfields
-      (fun x _ y hy => field_shape r c.name x y hy)
-  have hm : methods.map eraseMethod = (c.methods.map stripMethod).map eraseMethod := by
-    rw [List.map_map]
-    exact omapM_erase2 (remapMethod r c.name) eraseMethod (eraseMethod ∘ stripMethod) c.methods methods hmethods
+  have hf : fields.map eraseField = c.fields.map eraseField :=
+    omapM_erase (remapField r c.name) eraseField c.fields fields hfields (fun x _ y hy => field_shape r c.name x y hy)
+  have hm : methods.map eraseMethod = c.methods.map eraseMethod :=
+    omapM_erase (remapMethod r c.name) eraseMethod c.methods methods hmethods
       (fun x _ y hy => method_shape r c.name x y hy)
+  have hr : records.map eraseRecordComponent = c.recordComponents.map eraseRecordComponent :=
+    omapM_erase (remapRecordComponent r c.name) eraseRecordComponent c.recordComponents records hrcs
+      (fun x _ y hy => recordComponent_shape r c.name x y hy)
   have hnm' : nestMembers.map (·.map fun _ => ([] : JStr)) = c.nestMembers.map (·.map fun _ => ([] : JStr)) := by
     cases hc : c.nestMembers with
     | none => simp [hc, ooptM] at hnm; subst hnm; rfl
@@ -424,9 +459,10 @@ theorem class_shape (c d : ClassFile) (h : remapClass r c = some d) : eraseClass
       · rename_i es' hes'
         simp at hps; subst hps
         simp [omapM_blank _ _ _ hes']
-  simp [eraseClass, strip, hf, hm, hnm', hps', typeAnnotations_shape r _ _ hrvta, typeAnnotations_shape r _ _ hrita,
+  simp [eraseClass, hf, hm, hr, hnm', hps', typeAnnotations_shape r _ _ hrvta, typeAnnotations_shape r _ _ hrita,
     annotations_shape r _ _ hrva, annotations_shape r _ _ hria, ooptM_blank _ _ _ hsuper, omapM_blank _ _ _ hitfs,
-    ooptM_blank _ _ _ hnh,
+    ooptM_blank _ _ _ hnh, ooptM_blank _ _ _ hmain,
+    ooptM_erase _ eraseModule _ _ hmodule (fun a b _ hb => module_shape r a b hb),
     ooptM_erase _ eraseEnclosing _ _ hencl (fun a b _ hb => enclosing_shape r a b hb),
     ooptM_erase _ (List.map eraseInnerClass) _ _ hinner
       (fun a b _ hb => omapM_erase _ eraseInnerClass _ _ hb (fun x _ y hy => innerClass_shape r x y hy))]
